@@ -413,10 +413,11 @@ impl<'a> Drop for Sentinel<'a> {
 /// `.stop_and_wait()`, and `.is_stopped()` methods are meant to be called
 /// from the main thread (thread A).
 ///
-/// This worker is stopped by receiving a "poison pill" message in the
-/// channel that it is consuming messages from. Thus, calls to `.submit()`,
-/// consuming messages in '.run()`, and `.stop()` typically involve no
-/// locking.
+/// This worker is stopped by setting a "stopping" flag and waking up the
+/// `.run()` method, which then processes the messages still in the channel
+/// that it is consuming messages from before returning. Thus, calls to
+/// `.submit()`, consuming messages in '.run()`, and `.stop()` typically
+/// involve no locking.
 ///
 /// However, in order to enable easier testing, after it stops receiving
 /// messages the `.run()` method will use an atomic "stopped" flag to
@@ -431,6 +432,12 @@ struct Worker {
     task: Box<dyn Fn(String) + Sync + Send + RefUnwindSafe + 'static>,
     sender: Sender<Option<String>>,
     receiver: Receiver<Option<String>>,
+    // Request to stop: a flag that stays set plus a one slot channel used only
+    // to wake the run loop up. Unlike a marker put in the entry channel, this
+    // can't be lost when a bounded entry channel is full.
+    stopping: AtomicBool,
+    wake_sender: Sender<()>,
+    wake_receiver: Receiver<()>,
     stopped: AtomicBool,
     stats: WorkerStats,
 }
@@ -441,10 +448,14 @@ impl Worker {
         F: Fn(String) + Sync + Send + RefUnwindSafe + 'static,
     {
         let (tx, rx) = Self::get_channels(capacity);
+        let (wake_tx, wake_rx) = crossbeam_channel::bounded(1);
         Worker {
             task: Box::new(task),
             sender: tx,
             receiver: rx,
+            stopping: AtomicBool::new(false),
+            wake_sender: wake_tx,
+            wake_receiver: wake_rx,
             stopped: AtomicBool::new(false),
             stats: WorkerStats::new(),
         }
@@ -468,7 +479,24 @@ impl Worker {
     }
 
     fn run(&self) {
-        for opt in self.receiver.iter() {
+        loop {
+            let opt = if self.stopping.load(Ordering::Acquire) {
+                // We've been asked to stop: process whatever is still queued
+                // without blocking and finish once there is nothing left.
+                match self.receiver.try_recv() {
+                    Ok(opt) => opt,
+                    Err(_) => break,
+                }
+            } else {
+                crossbeam_channel::select! {
+                    recv(self.receiver) -> res => match res {
+                        Ok(opt) => opt,
+                        Err(_) => break,
+                    },
+                    recv(self.wake_receiver) -> _ => continue,
+                }
+            };
+
             if let Some(v) = opt {
                 self.stats.incr_drained();
                 (self.task)(v);
@@ -484,8 +512,11 @@ impl Worker {
     }
 
     fn stop(&self) {
-        // Send a `None` poison pill value to stop the run loop.
-        let _ = self.sender.try_send(None);
+        // Record the request to stop and wake up the run loop if it is waiting
+        // for entries. The wake up channel holds a single message: if it is
+        // already full the run loop will be woken up anyway.
+        self.stopping.store(true, Ordering::Release);
+        let _ = self.wake_sender.try_send(());
     }
 
     // Stop reading events from the channel and wait for the "stopped" flag
